@@ -44,7 +44,9 @@ def expand(tid, ops):
     def sample(flags, hdr, nfr, frames, thd):
         out.append(EV.E(tid, 'PERF_Event', 1, args=[flags, 1, 0, 0]))
         if thd:
-            out.append(EV.E(tid, 'PERF_THD_Data', 0, args=[77, tid, 0, 1]))
+            # the sampler's thread-info record may describe ANOTHER thread than the one that logs the sample: the
+            # callstack is stamped with the sample's START thread
+            out.append(EV.E(tid, 'PERF_THD_Data', 0, args=[77, tid if len(frames) % 2 else tid ^ 0x4000, 0, 1]))
         if hdr:
             out.append(EV.E(tid, 'PERF_STK_UHdr', 0, args=[5, nfr, 0, 0]))
         fr = [frame_value(k) for k in frames]
